@@ -83,12 +83,13 @@ def _rhe(n, m):
 
 
 class Decimal:
-    __slots__ = ("n", "k", "den", "lazy", "nr")
+    __slots__ = ("n", "k", "den", "lazy", "nr", "eb")
 
     def __init__(self, value="0", context=None):
         self.den = None
         self.lazy = None
         self.nr = getattr(value, "nr", 0)  # number of arithmetic operations in the derivation (each may round at `prec` digits)
+        self.eb = getattr(value, "eb", None)  # TRACK_ERR: upper bound on |value computed at `prec` digits - exact value| (None = exact)
         if isinstance(value, Decimal):
             if value.n is None and value.lazy is None:
                 value._mat()
@@ -208,6 +209,8 @@ class Decimal:
         r = self._bin0(o, op)
         if r is not NotImplemented:
             r.nr = self.nr + getattr(o, "nr", 0) + 1
+            if TRACK_ERR and not _IN_EB[0]:
+                r.eb = _error_bound(self, Decimal._coerce(o), op, r)
         return r
 
     def _bin0(self, o, op):
@@ -345,8 +348,11 @@ class Decimal:
     def __neg__(self):
         self._mat()
         if self.is_grid:
-            return Decimal(("grid", -self.n, self.k))
-        return Decimal(("ratio", -self.n, self.den, self.k))
+            r = Decimal(("grid", -self.n, self.k))
+        else:
+            r = Decimal(("ratio", -self.n, self.den, self.k))
+        r.nr, r.eb = self.nr, self.eb
+        return r
 
     def __pos__(self):
         return Decimal(self)
@@ -507,6 +513,159 @@ class Decimal:
         if name.startswith("__") or name.startswith("_RP2") or name.startswith("_Decimal") or not hasattr(_real.Decimal, name):
             raise AttributeError(name)  # the real Decimal has no such attribute either
         raise Unsupported("Decimal.%s is not modelled by the substrate" % name)
+
+
+# ---- rounding-error bounds (C04): every arithmetic result carries an upper bound on the distance between the value the real
+# decimal module computes (each operation correctly rounded to `prec` significant digits) and the exact value.  First-order
+# propagation with the unit roundoff u = 5 * 10^-prec charged on every operation; second-order terms are covered by the
+# factor 1 + 1e-6 on quotients.  The bound is itself an exact-rational substrate value.
+TRACK_ERR = False
+_IN_EB = [False]
+
+
+def _abs_sym(x):
+    if x.is_concrete:
+        return x if x.fraction() >= 0 else -x
+    return -x if x._cmp0("<", Decimal(0)) else x
+
+
+def _sign_if_cheap(x):
+    """+1 / -1 / 0 when the sign of x follows from the signs of the input variables alone, None otherwise (no solver query)"""
+    if x.is_concrete:
+        f = x.fraction()
+        return (f > 0) - (f < 0)
+    if x.lazy is not None and x.n is None:
+        return None
+    n, d, _k = x._as_ratio()
+    prod = n * d
+    if prod.is_const():
+        v = prod.const_value()
+        return (v > 0) - (v < 0)
+    q = engine.cur()._quick_sign(prod)  # pylint: disable=protected-access
+    return 1 if q == GT else (-1 if q == LT else None)
+
+
+def _abs_upper(r, a, b, op):
+    """|r|, or the upper bound |a| + |b| for a sum / difference whose sign is not known without asking the solver
+    (asking would fork every path on the sign of every gain)"""
+    sg = _sign_if_cheap(r)
+    if sg is not None:
+        return r if sg >= 0 else -r
+    if op in "+-":
+        sa, sb = _sign_if_cheap(a), _sign_if_cheap(b)
+        if sa is not None and sb is not None:
+            return (a if sa >= 0 else -a)._bin0(b if sb >= 0 else -b, "+")
+    return _abs_sym(r)
+
+
+def _coef_bound(poly):
+    """upper bound on |poly| from the declared ranges of the input variables (None: unknown)"""
+    if poly.is_const():
+        return abs(poly.const_value())
+    vb = engine.cur().var_bound
+    tot = 0
+    for mono, c in poly.m.items():
+        t = abs(c)
+        for v in mono:
+            bnd = vb.get(v)
+            if bnd is None:
+                return None
+            t *= bnd
+        tot += t
+    return tot
+
+
+def _result_is_exact(op, r):
+    """+, -, * of decimals are exact in the real module when the result has at most `prec` significant digits"""
+    if op == "/" or r.lazy is not None or not r.is_grid or r.n is None:
+        return False
+    bnd = _coef_bound(r.n)
+    return bnd is not None and bnd < 10**_CTX.prec
+
+
+INF = ("inf",)  # error bound unknown (the sign of an intermediate value would have needed a solver query)
+
+
+def _u_factor(exact):
+    return Fraction(0) if exact else Fraction(5, 10**_CTX.prec)
+
+
+def _abs_cheap(x):
+    sg = _sign_if_cheap(x)
+    if sg is None:
+        return None
+    return x if sg >= 0 else -x
+
+
+def _total_abs(x):
+    """absolute error bound of x as a substrate value (None when it cannot be formed without a query)"""
+    e = x.eb
+    if e is None:
+        return Decimal(0)
+    if e[0] == "abs":
+        return e[1]
+    ax = _abs_cheap(x)
+    if ax is None:
+        return None
+    f = e[1]
+    return ax._bin0(Decimal(("ratio", Poly.const(f.numerator), Poly.const(f.denominator), 0)), "*")
+
+
+def _error_bound(a, b, op, r):
+    """error bound of r = a op b.  Representation: None (exact) | ("rel", Fraction) - at most that fraction of |r| |
+    ("abs", substrate value) - an absolute bound | INF.  Relative bounds stay plain numbers through products, quotients and
+    same-sign sums, so that the usual figures never need the solver; a difference (cancellation) switches to an absolute,
+    symbolic bound."""
+    _IN_EB[0] = True
+    try:
+        ea, ebb = a.eb, b.eb
+        if ea is INF or ebb is INF:
+            return INF
+        exact = _result_is_exact(op, r)
+        if exact and ea is None and ebb is None:
+            return None
+        u = _u_factor(exact)
+        rel_a = Fraction(0) if ea is None else (ea[1] if ea[0] == "rel" else None)
+        rel_b = Fraction(0) if ebb is None else (ebb[1] if ebb[0] == "rel" else None)
+        if op in "*/" and rel_a is not None and rel_b is not None:
+            if op == "*":
+                f = (1 + rel_a) * (1 + rel_b) * (1 + u) - 1
+            else:
+                if rel_b >= 1:
+                    return INF
+                f = (1 + rel_a) * (1 + u) / (1 - rel_b) - 1
+            return ("rel", f) if f else None
+        if op in "+-" and rel_a is not None and rel_b is not None:
+            sa, sb = _sign_if_cheap(a), _sign_if_cheap(b)
+            if sa is not None and sb is not None and (sa == 0 or sb == 0 or (sa == sb) == (op == "+")):
+                f = (1 + max(rel_a, rel_b)) * (1 + u) - 1  # a sum of same-sign terms: no cancellation
+                return ("rel", f) if f else None
+        # absolute, symbolic bound
+        ta, tb = _total_abs(a), _total_abs(b)
+        if ta is None or tb is None:
+            return INF
+        ub = Decimal(("ratio", Poly.const(u.numerator), Poly.const(u.denominator), 0))
+        if op in "+-":
+            ar = _abs_cheap(r)
+            if ar is None:
+                aa, ab = _abs_cheap(a), _abs_cheap(b)
+                if aa is None or ab is None:
+                    return INF
+                ar = aa._bin0(ab, "+")
+            tot = ta._bin0(tb, "+")._bin0(ar._bin0(ub, "*"), "+")
+        else:
+            aa, ab, ar = _abs_cheap(a), _abs_cheap(b), _abs_cheap(r)
+            if aa is None or ab is None or ar is None:
+                return INF
+            if op == "*":
+                tot = ab._bin0(ta, "*")._bin0(aa._bin0(tb, "*"), "+")._bin0(ta._bin0(tb, "*"), "+")._bin0(ar._bin0(ub, "*"), "+")
+            else:
+                safety = Decimal(("grid", Poly.const(1000001), 6))
+                tot = ta._bin0(ar._bin0(tb, "*"), "+")._bin0(ab, "/")._bin0(safety, "*")._bin0(ar._bin0(ub, "*"), "+")
+        tot.eb = None
+        return ("abs", tot)
+    finally:
+        _IN_EB[0] = False
 
 
 class _Formatted:
